@@ -124,3 +124,47 @@ pub fn http_batch(a: &Value) -> Value {
         json!({"scenario":"c12_http_batch","observed":obs,"violation":violation,"why": if violation {"HTTP batch completed with a list of the wrong length or an entry holding another entry's answer"} else {""}})
     })
 }
+
+/// args {pre, n}: `pre` single calls first (so that the batch ids cross a digit-count boundary), then a batch of n answered in wire
+/// order and in reverse order: entry i of the result is the answer to request i both times
+pub fn ws_batch_order(a: &Value) -> Value {
+    let (pre, n) = (u(a, "pre") as usize, u(a, "n") as usize);
+    let rt = tokio::runtime::Builder::new_multi_thread().worker_threads(2).enable_all().build().unwrap();
+    rt.block_on(async move {
+        let (c, mut s) = client(ClientBuilder::default().request_timeout(std::time::Duration::from_secs(2)));
+        let c = std::sync::Arc::new(c);
+        for _ in 0..pre {
+            let c1 = c.clone();
+            let h = tokio::spawn(async move { c1.request::<Value, _>("warmup", rpc_params![]).await });
+            let rq = s.next_request().await.unwrap();
+            s.push(json!({"jsonrpc":"2.0","id":rq["id"],"result":0}));
+            let _ = h.await;
+        }
+        let mut why = vec![];
+        for reverse in [false, true] {
+            let mut b = BatchRequestBuilder::new();
+            for i in 0..n {
+                b.insert("m", rpc_params![i]).unwrap();
+            }
+            let c2 = c.clone();
+            let h = tokio::spawn(async move { c2.batch_request::<String>(b).await });
+            let rq = s.next_request().await.expect("batch on the wire");
+            let mut reply: Vec<Value> = rq.as_array().unwrap().iter().map(|e| json!({"jsonrpc":"2.0","id":e["id"],"result":format!("answer-to-params-{}", e["params"][0])})).collect();
+            if reverse {
+                reply.reverse();
+            }
+            s.push(Value::Array(reply));
+            match h.await.unwrap() {
+                Err(e) => why.push(format!("batch failed: {e}")),
+                Ok(r) => {
+                    let got: Vec<String> = r.into_iter().map(|x| x.unwrap_or_else(|e| format!("Err({})", e.code()))).collect();
+                    let want: Vec<String> = (0..n).map(|i| format!("answer-to-params-{i}")).collect();
+                    if got != want {
+                        why.push(format!("reply in {} order: results {got:?}, the requests were {want:?}", if reverse { "reverse" } else { "wire" }));
+                    }
+                }
+            }
+        }
+        json!({"scenario":"c12_ws_batch_order","observed":{"pre":pre,"n":n},"violation":!why.is_empty(),"why":why.join(" | ")})
+    })
+}
